@@ -35,7 +35,7 @@ Ltac now_chain :=
   repeat match goal with
          | H : mint ?y _ _ _ _ _ _ _ = Ok (?x, _) |- _ =>
              let Hn := fresh "Hn" in pose proof H as Hn; apply mint_ok in Hn as (_&Hn&_); revert H
-         end; intros; cbn [now upd_tok fst] in *; try congruence; try lia.
+         end; intros; cbn [now upd_tok upd_grant fst] in *; try congruence; try lia.
 
 Lemma code_process_now c s cl code redir kw : now (fst (do_code_process c s cl code redir kw)) = now s.
 Proof. unfold do_code_process. cbv zeta. repeat dm; subst; now_chain. Qed.
@@ -45,7 +45,7 @@ Proof. unfold do_refresh_process. cbv zeta. repeat dm; subst; now_chain. Qed.
 Lemma step_now c s o : now s <= now (fst (step c s o)).
 Proof.
   destruct o; cbn [step].
-  - unfold do_authorize. repeat dm; subst; now_chain.
+  - unfold do_authorize, do_authorize_at. repeat dm; subst; now_chain.
   - unfold do_token_parse. repeat dm; cbn; lia.
   - unfold do_refresh_parse. repeat dm; cbn; lia.
   - unfold do_process. repeat dm; cbn [fst]; try lia.
@@ -60,6 +60,7 @@ Proof.
   - repeat dm; cbn; lia.
   - repeat dm; cbn; lia.
   - cbn. lia.
+  - unfold do_authorize_cookie, do_authorize_at. repeat dm; subst; now_chain.
 Qed.
 
 (* FINAL: once dead, dead after every further operation *)
@@ -200,24 +201,13 @@ Qed.
 
 (* ================================================================== remove-session and the user session *)
 (* A grant taken out of the database (SessionManager.remove_session) stays out; its fields never change again. *)
-Lemma gext_refl s : gext s s.
-Proof. intros gi g H. eauto using g_le_refl. Qed.
-Lemma g_le_trans a b c : g_le a b -> g_le b c -> g_le a c.
-Proof. unfold g_le. intros (A1&A2&A3&A4&A5&A6&A7&A8) (B1&B2&B3&B4&B5&B6&B7&B8). repeat split; try congruence; auto. Qed.
-Lemma gext_trans a b c : gext a b -> gext b c -> gext a c.
-Proof. intros H1 H2 gi g H. destruct (H1 _ _ H) as (g1&E1&L1). destruct (H2 _ _ E1) as (g2&E2&L2). eauto using g_le_trans. Qed.
-Lemma run_gext c ops : forall s, gext s (fst (run c s ops)).
-Proof.
-  induction ops as [|o r IH]; intros s; cbn [run]; [apply gext_refl|].
-  destruct (step c s o) as [s1 x] eqn:E. specialize (IH s1). destruct (run c s1 r) as [s2 xs]. cbn [fst] in *.
-  eapply gext_trans; [|exact IH]. pose proof (step_gext c s o) as H. now rewrite E in H.
-Qed.
+(* gextw_refl, gextw_trans, run_gext: Proofs/C05a_proofs.v *)
 Theorem removed_forever c ops s gi g :
   nth_error (grants s) gi = Some g -> g_removed g = true ->
   exists g', nth_error (grants (fst (run c s ops))) gi = Some g' /\ g_removed g' = true /\
              g_user g' = g_user g /\ g_client g' = g_client g.
 Proof.
-  intros H R. destruct (run_gext c ops s gi g H) as (g'&H'&(L1&L2&_&_&_&_&_&L8)). exists g'. repeat split; auto.
+  intros H R. destruct (run_gext c ops s gi g H) as (g'&H'&(L1&L2&_&_&_&L8)). exists g'. repeat split; auto.
 Qed.
 
 (* what "no endpoint honours token k" means in state s: no user info, never reported active, refused by both parse
@@ -301,7 +291,7 @@ Theorem unusable_forever c ops s k g t :
 Proof.
   intros Hf U. apply find_tok_tget in Hf as (Ht&Hg).
   destruct (run_ext c ops s k t Ht) as (t'&Ht'&L). pose proof L as (L1&_).
-  destruct (run_gext c ops s _ g Hg) as (g'&Hg'&(G1&G2&_&_&_&_&_&G8)).
+  destruct (run_gext c ops s _ g Hg) as (g'&Hg'&(G1&G2&_&_&_&G8)).
   exists g', t'. split; [apply find_tok_intro; [exact Ht'|now rewrite L1]|]. repeat split; auto.
   destruct U as [D|R]; [left|right; auto].
   destruct (dead_forever c ops s k t Ht D) as (t2&Ht2&D2). rewrite Ht' in Ht2. inversion Ht2; subst. exact D2.
